@@ -208,6 +208,16 @@ PPL::Polyhedron::minimized_generators() const {
 
 PPL::Poly_Con_Relation
 PPL::Polyhedron::relation_with(const Constraint& c) const {
+  // `c' may be (a reference to) a row of `con_sys' itself (e.g.,
+  // *constraints().begin()): the lazy minimization below rewrites and
+  // reorders those rows.  Work on a copy.
+  {
+    const dimension_type n = con_sys.sys.rows.size();
+    if (n > 0 && &c >= &con_sys.sys.rows[0] && &c <= &con_sys.sys.rows[n-1]) {
+      const Constraint c_copy(c);
+      return relation_with(c_copy);
+    }
+  }
   // Dimension-compatibility check.
   if (space_dim < c.space_dimension()) {
     throw_dimension_incompatible("relation_with(c)", "c", c);
